@@ -4,6 +4,18 @@ import json
 props = [json.loads(l) for l in open('/verif/properties.jsonl')]
 # id -> (technique, level text, level note, design ref)
 built = {
+ "C02": ("reference-model monitor (independent FORKID sighash, validated on the node's sighash vectors) + before/after canary; exhaustive 128 hash types x every index x fixed shapes, then random shapes",
+         "All 128 eight-bit FORKID hash types x every in-range and out-of-range input index x 50 fixed shapes (1-6 inputs, 0-6 outputs, script lengths 0/1/252/253/65535/65536) are executed and the preimage compared byte for byte, the digest with sha256d of the reference preimage; then 5k/300k random shapes; error classes must return an error and never panic; the transaction snapshot is unchanged. Held on the executions observed.",
+         "Trusts /verif/internal/refsighash (re-validated each run: 500/500 sighash_bip143.json vectors) and crypto/sha256; other inputs always have 32-byte txids; hash types are 8-bit.", "DESIGN.md §3 C02"),
+ "C03": ("reference-model monitor (independent Satoshi legacy sighash incl. the SINGLE=1 rule, validated on the node's vectors) + before/after canary + result-aliasing probe",
+         "As C02 with the 128 hash types without the FORKID bit; additionally SINGLE with index >= #outputs must yield exactly 01 00..00 unhashed, also after a caller modified a previously returned result. Held on the executions observed.",
+         "Script code is passed verbatim (code-separator stripping is the caller's job); out-of-range / malformed inputs are only checked for no panic and no modification; trusts refsighash (500/500 sighash_legacy.json vectors).", "DESIGN.md §3 C03"),
+ "C04": ("sign-through-library / verify-through-interpreter monitor with single-field mutation; expected verdict from reference-digest equality; static commitment-table cross-check",
+         "Every shape 1-5 x 0-5 x signed position x 6 FORKID + 6 legacy hash types (plus random shapes, FillAllInputs) is signed by the library, must be accepted by Engine.Execute, and every single-field mutant (version, locktime, each outpoint/sequence, each output value/script, output/input insertion/removal, spent value, spent script) is executed: accepted <=> reference digest unchanged. Quick ~1.5k signed inputs / 62k verifications, thorough ~40k / 1.7M. Held on the executions observed.",
+         "P2PKH and P2PKH-inscription outputs only; ECDSA is go-bk (shared with the library); legacy types are verified without WithForkID; interpreter error codes are recorded, not judged.", "DESIGN.md §3 C04"),
+ "C07": ("recover/child-death totality monitor over hostile scripts, flag words, transaction-context modes and debuggers; progress-marker attribution with single-case confirmation",
+         "~570k (quick) / ~17M (thorough) Execute calls on random bytes, truncations and mutations of the node vectors, structured programs and opcode x operand enumerations, with flag words from all 2^16, twelve transaction-context modes (incl. nil tx, missing previous output, bad indices) and three debugger settings. A panic, a child death (fatal error, os.Exit) or a confirmed non-return is a violation. Held on the executions observed.",
+         "Termination is bounded progress (600 s alone). Programs whose node-rule execution builds an element above 4 MiB are filtered out by the reference model (they only measure allocation speed). Children run under a 24 GiB address-space limit.", "DESIGN.md §3 C07"),
  "C05": ("lock-step reference-model monitor: recording Debugger (public API) vs an independent transcription of the node's EvalScript/VerifyScript",
          "Every program (node vectors, exhaustive opcode x edge-operand tuples in both eras, shift-count sweeps, all 2^9 non-signature flag subsets on a core set, structured random programs, vector mutants) is executed by the real interpreter and by the model; the verdict and the data/alt stacks after every instruction must agree. Held on the programs executed; the evidence lists per-opcode x era coverage and the number of steps compared.",
          "Trusts /verif/internal/refscript (re-validated on every run against the node's script_tests.json: >1200 non-signature vectors reproduced). Error codes are not compared. Out of domain: CLEANSTACK without P2SH, P2SH-shaped outputs spent by non-push-only scripts after Genesis, elements > 4 MiB, signature opcodes (C06).", "DESIGN.md §3 C05, §7"),
